@@ -16,7 +16,7 @@
     A Go run-time panic is reported as ((panic msg)).
     "bits" is an atom of 0/1 characters.  No proofs in this file. *)
 From Coq Require Import String Ascii NArith ZArith QArith Bool Arith List.
-From GT Require Import Base.Sexp Base.UTree Base.Codec Spec.Obs Model.Reroot Model.Index Model.HashMap
+From GT Require Import Base.Sexp Base.UTree Base.Codec Spec.Obs Spec.SplitMap Model.Reroot Model.Index Model.HashMap
      Model.EdgeIndex Model.Quartet Judge.Common.
 Import ListNotations.
 Local Close Scope Q_scope.
@@ -151,8 +151,7 @@ Definition judge_index (c o : sexp) : verdict :=
   end.
 
 (** * samebip *)
-Definition split_sides (t : utree) : list (list string) :=
-  let all := tipset t in map (fun ec => canon_side all (sset (leaves (snd ec)))) (edges t).
+(** [split_sides], the canonical key of every branch: Spec/SplitMap.v *)
 
 Definition pair_oracle (what : string) (a b : list string * erow) (same heq : bool) : option string :=
   let s := sset_eqb (fst a) (fst b) in
@@ -548,26 +547,15 @@ Definition erun (need : nat -> N -> bool) (m : eindex) (ops : list (ekey * optio
   end.
 
 (** specification: association list keyed by the canonical side of the split *)
-Definition skey : Type := list string.
-Fixpoint sp_get (a : list (skey * (Z * Q))) (k : skey) : option (Z * Q) :=
-  match a with
-  | [] => None
-  | (k', v) :: r => if sset_eqb k k' then Some v else sp_get r k
+(** [skey], [sp_get], [sp_set], [sp_run]: Spec/SplitMap.v (the same objects the theorem
+    Proofs/SplitMap.edgeindex_is_split_map is about) *)
+Definition to_sop (x : (skey * Q) * option (option (Z * Q))) : sop :=
+  match x with
+  | ((k, _), Some (Some v)) => SPut k v
+  | ((k, l), Some None) => SAdd k l
+  | ((k, _), None) => SValue k
   end.
-Fixpoint sp_set (a : list (skey * (Z * Q))) (k : skey) (v : Z * Q) : list (skey * (Z * Q)) :=
-  match a with
-  | [] => [(k, v)]
-  | (k', v') :: r => if sset_eqb k k' then (k', v) :: r else (k', v') :: sp_set r k v
-  end.
-Fixpoint sp_run (a : list (skey * (Z * Q))) (ops : list ((skey * Q) * option (option (Z * Q)))) : list eres * list (skey * (Z * Q)) :=
-  match ops with
-  | [] => ([], a)
-  | ((k, _), Some (Some v)) :: r => let '(rs, af) := sp_run (sp_set a k v) r in (GOk :: rs, af)
-  | ((k, l), Some None) :: r =>
-    let v := match sp_get a k with Some (cn, ln) => ((cn + 1)%Z, (ln + l)%Q) | None => (1%Z, l) end in
-    let '(rs, af) := sp_run (sp_set a k v) r in (GOk :: rs, af)
-  | ((k, _), None) :: r => let '(rs, af) := sp_run a r in (GVal (sp_get a k) :: rs, af)
-  end.
+Definition of_sres (r : sres) : eres := match r with SOk => GOk | SVal x => GVal x end.
 Definition sp_same (a b : list (skey * (Z * Q))) : bool :=
   Nat.eqb (length a) (length b) &&
   forallb (fun kv => match sp_get b (fst kv) with Some v => info_eqb v (snd kv) | None => false end) a.
@@ -614,7 +602,8 @@ Definition judge_edgeindex (c o : sexp) : verdict :=
                   (x <- get "edges" o ;; dec_list dec_entry x), (x <- get "all" o ;; dec_list dec_entry x) with
             | Some gerr, Some grs, Some gedges, Some gall =>
               if negb (String.eqb gerr "") then VCorr ("implementation refuses: " ++ gerr) else
-              let '(srs, sf) := sp_run [] (map (fun x => ((snd (fst x), ek_len (fst (fst x))), snd x)) kops) in
+              let '(srs0, sf) := sp_run [] (map (fun x => to_sop ((snd (fst x), ek_len (fst (fst x))), snd x)) kops) in
+              let srs := map of_sres srs0 in
               let side_of (tg : nat * nat) := option_map snd (key_of (fst tg) (snd tg)) in
               match omap (fun e => sd <- side_of (fst e) ;; Some (sd, snd e)) gall,
                     omap (fun e => sd <- side_of (fst e) ;; Some (sd, snd e)) gedges with
